@@ -107,6 +107,11 @@ Valid(kind, v) ==
 None == [ok |-> FALSE, kind |-> "", start |-> <<>>, S |-> {}]
 Block(kind, v) == [ok |-> TRUE, kind |-> kind, start |-> StartD(kind, v), S |-> {BitD(v)}]
 
+(* block numbers a block of the kind can have: a uint32 below 2^32-1 resp. below 2^22 *)
+StartOK(kind, st) ==
+  /\ Len(st) = SD /\ \A i \in 1..SD : st[i] \in Bits
+  /\ IF kind = "big" THEN DLess(st, MaxU32D) ELSE st[SD] = 0 /\ st[SD - 1] < TopLim
+
 (* the integer block b holds for bit m *)
 ValueOf(b, m) == [neg |-> FALSE, d |-> <<m>> \o b.start \o Zeros(ND - SD - 1)]
 
@@ -121,7 +126,10 @@ SliceAfter(a, vals) ==
 
 (* =========================== replies =================================== *)
 ReplyOK(a, r) ==
-  CASE a.op \in {"load", "fresh", "brev"} -> r = 0
+  CASE a.op \in {"load", "fresh", "brev", "bload", "bnew0"} -> r = 0
+    [] a.op = "bdata" ->   \* a block from (block number, bytes): fails or holds what the bytes denote
+         LET d == Denote(a.bytes) IN
+         IF r THEN ~d.ok \/ ~IsMarshalOf(a.bytes, d.S) ELSE d.ok
     [] a.op = "marshal"   -> IsMarshalOf(r, cur)
     [] a.op = "unmarshal" ->
          LET d == Denote(a.bytes) IN
@@ -153,6 +161,22 @@ Do(a, r) ==
     [] a.op = "new" ->
          /\ a.kind = "tip" => IsU32(a.v)                  \* the parameter type is uint32
          /\ blk' = [blk EXCEPT ![a.h] = IF Valid(a.kind, a.v) THEN Block(a.kind, a.v) ELSE None]
+         /\ UNCHANGED cur
+    [] a.op = "bload" ->           \* the harness builds the struct itself (public fields)
+         /\ a.kind \in {"big", "tip"} /\ StartOK(a.kind, a.start)
+         /\ \A i \in 1..Len(a.ms) : a.ms[i] \in Bits
+         /\ blk' = [blk EXCEPT ![a.h] = [ok |-> TRUE, kind |-> a.kind, start |-> a.start, S |-> AsSet(a.ms)]]
+         /\ UNCHANGED cur
+    [] a.op = "bnew0" ->           \* NewBigU32() / NewU32BitTip(): the empty block number 0
+         /\ a.kind \in {"big", "tip"}
+         /\ blk' = [blk EXCEPT ![a.h] = [ok |-> TRUE, kind |-> a.kind, start |-> Zeros(SD), S |-> {}]]
+         /\ UNCHANGED cur
+    [] a.op = "bdata" ->           \* New...FromData(start, bytes)
+         /\ a.kind \in {"big", "tip"} /\ StartOK(a.kind, a.start)
+         /\ N = C
+         /\ blk' = [blk EXCEPT ![a.h] =
+                      IF r THEN None
+                      ELSE [ok |-> TRUE, kind |-> a.kind, start |-> a.start, S |-> Denote(a.bytes).S]]
          /\ UNCHANGED cur
     [] a.op = "bset" ->
          /\ blk[a.h].ok
@@ -227,7 +251,8 @@ ImplAll(b, dir) ==
 Flip(dir) == IF dir = "f" THEN "r" ELSE "f"
 
 ImplReply(a) ==
-  CASE a.op \in {"load", "fresh", "brev"} -> 0
+  CASE a.op \in {"load", "fresh", "brev", "bload", "bnew0"} -> 0
+    [] a.op = "bdata"     -> ImplUnmarshal(a.bytes).err
     [] a.op = "marshal"   -> ImplMarshal(cur)
     [] a.op = "unmarshal" -> ImplUnmarshal(a.bytes)
     [] a.op = "new"   -> IF a.kind = "big" THEN ~Valid("big", a.v) ELSE FALSE
@@ -263,6 +288,7 @@ CodecActs ==
 BlockActs ==
        {[op |-> "new", h |-> h, kind |-> k, v |-> v] : h \in Hs, k \in {"big", "tip"},
                                                        v \in AllInts}
+  \cup {[op |-> "bnew0", h |-> h, kind |-> k] : h \in Hs, k \in {"big", "tip"}}
   \cup {[op |-> "bset", h |-> h, v |-> v] : h \in OkHs, v \in AllInts}
   \cup {[op |-> "brev", h |-> h, d |-> d] : h \in OkHs, d \in Hs}
   \cup {[op |-> "bgetn", h |-> h, dir |-> dir, n |-> n] : h \in OkHs, dir \in {"f", "r"}, n \in 0..(C + 1)}
@@ -271,7 +297,7 @@ BlockActs ==
            : h \in OkHs, dir \in {"f", "r"}, n \in (-1)..(C + 1)}
   \cup UNION {{[op |-> "lgetn", kind |-> k, hs |-> hs, dir |-> dir, n |-> n]
                  : hs \in {s \in SeqsUpTo(OkHs, 2) : \A i \in 1..Len(s) : blk[s[i]].kind = k},
-                   dir \in {"f", "r"}, n \in {0, 1, C + 1, 2 * C}}
+                   dir \in {"f", "r"}, n \in {1, C + 1, 2 * C}}
               : k \in {"big", "tip"}}
 
 (* the parameter types of the code: "tip" functions take a uint32 *)
